@@ -3,7 +3,10 @@ use crate::css::{Value, is_not};
 use crate::input::SourcePos;
 use crate::{Scope, ScopeRef};
 use std::collections::BTreeMap;
+#[cfg(not(kaj_rsass_verif))]
 use std::sync::{Arc, LazyLock};
+#[cfg(kaj_rsass_verif)]
+use crate::verif::sync::{Arc, LazyLock};
 use std::{cmp, fmt};
 
 #[macro_use]
